@@ -69,6 +69,7 @@ Inductive goval : Type :=
 | GBool (b : bool)
 | GFloat (q : Z)
 | GBytes (s : string)                    (* a non-nil []byte *)
+| GNilBytes                              (* []byte(nil) *)
 | GPtr (addr : nat) (v : goval)          (* non-nil pointer; [addr] identifies the pointee *)
 | GNilPtr (t : gty).                     (* nil pointer of type *t *)
 
@@ -79,14 +80,16 @@ Fixpoint type_of (v : goval) : option gty :=
   | GStr n _ => Some (TyStr n)
   | GBool _ => Some TyBool
   | GFloat _ => Some TyFloat
-  | GBytes _ => Some TyBytes
+  | GBytes _ | GNilBytes => Some TyBytes
   | GPtr _ v => match type_of v with Some t => Some (TyPtr t) | None => None end
   | GNilPtr t => Some (TyPtr t)
   end.
 
-(** Go's [a == b] on interface values.  Comparing two []byte panics at run time; the panic unwinds
-    before anything is sent to the database, so the model counts it as "not equal" (the caller of the
-    check is rejected either way) and [go_eq_panics] says when that happened. *)
+(** Equality of a query's value and a limit's value (limitValuesEqual in db.go, after C12-fix-1): Go's
+    [a == b] on interface values -- dynamic types first, then values; pointers by address -- and
+    reflect.DeepEqual for the types [==] cannot compare, of which []byte is the one that occurs (a nil
+    slice and an empty one are different).  The same function is Go's map-key equality in the matcher,
+    where []byte never occurs (MakeHashable turns it into a string first). *)
 Definition go_eqb (a b : goval) : bool :=
   match a, b with
   | GNil, GNil => true
@@ -94,6 +97,8 @@ Definition go_eqb (a b : goval) : bool :=
   | GStr n x, GStr n' y => String.eqb n n' && String.eqb x y
   | GBool x, GBool y => Bool.eqb x y
   | GFloat x, GFloat y => Z.eqb x y
+  | GBytes x, GBytes y => String.eqb x y
+  | GNilBytes, GNilBytes => true
   | GPtr p x, GPtr q y =>
       match type_of x, type_of y with
       | Some t, Some u => gty_eqb t u && Nat.eqb p q
@@ -102,9 +107,6 @@ Definition go_eqb (a b : goval) : bool :=
   | GNilPtr t, GNilPtr u => gty_eqb t u
   | _, _ => false
   end.
-
-Definition go_eq_panics (a b : goval) : bool :=
-  match a, b with GBytes _, GBytes _ => true | _, _ => false end.
 
 (** * Tables *)
 Record column : Type := mk_col {
@@ -140,7 +142,8 @@ Definition is_zero (v : goval) : bool :=
   | GStr _ s => String.eqb s ""
   | GBool b => negb b
   | GFloat q => Z.eqb q 0
-  | GBytes _ => false
+  | GBytes _ => false     (* a non-nil slice is not zero, even when empty *)
+  | GNilBytes => true
   | GPtr _ _ => false
   | GNilPtr _ => true
   end.
@@ -158,7 +161,7 @@ Definition base_dval (v : goval) : dval :=
 (** [Valuer{descriptor of column c, v}.Value()]: never fails on these values. *)
 Definition valuer (implicitnull : bool) (v : goval) : dval :=
   match v with
-  | GNil | GNilPtr _ => DNull
+  | GNil | GNilPtr _ | GNilBytes => DNull      (* a nil slice serializes to NULL *)
   | GPtr _ v' => base_dval v'                      (* isZero of a non-nil pointer is false *)
   | _ => if implicitnull && is_zero v then DNull else base_dval v
   end.
@@ -166,7 +169,7 @@ Definition valuer (implicitnull : bool) (v : goval) : dval :=
 (** database/sql/driver.DefaultParameterConverter (arguments that bypass fields.Valuer). *)
 Definition default_conv (v : goval) : dval :=
   match v with
-  | GNil | GNilPtr _ => DNull
+  | GNil | GNilPtr _ | GNilBytes => DNull      (* go-sql-driver sends a nil []byte as NULL *)
   | GPtr _ v' => base_dval v'
   | _ => base_dval v
   end.
@@ -216,7 +219,9 @@ Definition simple_where_text (w : list (string * dval)) : string :=
 
 (** * Statements *)
 Record select_opts : Type := mk_opts {
-  o_where : string; o_values : list dval; o_order : string; o_limit : nat; o_for_update : bool }.
+  o_where : string;          (* free text, opaque to the model *)
+  o_values : list dval; o_order : string; o_limit : nat; o_for_update : bool;
+  o_force_index : list string; o_use_index : list string }.
 
 (** One group of makeBatchQuery: the (sorted) column set and one value tuple per filter. *)
 Definition bgroup := (list string * list (list dval))%type.
@@ -310,6 +315,15 @@ Definition sql_text (s : stmt) : string :=
   | SSelect t cols w o =>
       let wt := fst (select_where w o) in
       "SELECT " ++ join ", " cols ++ " FROM " ++ t
+      ++ match o with
+         | None => ""
+         | Some o =>
+             match o_force_index o, o_use_index o with
+             | _ :: _, _ => " FORCE INDEX(" ++ join "," (o_force_index o) ++ ")"
+             | [], _ :: _ => " USE INDEX(" ++ join "," (o_use_index o) ++ ")"
+             | [], [] => ""
+             end
+         end
       ++ (if String.eqb wt "" then "" else " WHERE " ++ wt)
       ++ match o with
          | None => ""
@@ -387,40 +401,17 @@ Definition dyn_enforced (h : handle) : option filter :=
   | None => None
   end.
 
-(** Does some comparison of the check panic (two []byte values)?  The panic unwinds through the DB
-    method before ShouldContinueOnError is consulted, so it rejects the call even when that callback
-    would have answered "continue".  (With two or more limit columns of which one panics and another
-    simply differs, Go's map iteration order decides which happens first; the model takes the panic.
-    With a rejecting callback both are rejections.) *)
-Definition filter_check_panics (f limit : filter) : bool :=
-  existsb (fun kv => match lookup (fst kv) f with
-                     | Some fv => go_eq_panics fv (snd kv)
-                     | None => false
-                     end) limit.
-
-Definition values_check_panics (cvs : list (string * dval)) (limit : filter) : bool :=
-  existsb (fun kv => match lookup (fst kv) cvs with
-                     | Some dv => go_eq_panics (go_of_dval dv) (snd kv)
-                     | None => false
-                     end) limit.
-
 Definition check_filter_limits (h : handle) (f : filter) : bool :=
   (match h_shard h with Some l => check_filter_against_limit f l | None => true end)
   && (match h_dyn h with
-      | Some l => if h_dyn_cb h
-                  then check_filter_against_limit f l
-                       || (h_dyn_continue h && negb (filter_check_panics f l))
-                  else true
+      | Some l => if h_dyn_cb h then check_filter_against_limit f l || h_dyn_continue h else true
       | None => true
       end).
 
 Definition check_values_limits (h : handle) (cvs : list (string * dval)) : bool :=
   (match h_shard h with Some l => check_column_values_against_limit cvs l | None => true end)
   && (match h_dyn h with
-      | Some l => if h_dyn_cb h
-                  then check_column_values_against_limit cvs l
-                       || (h_dyn_continue h && negb (values_check_panics cvs l))
-                  else true
+      | Some l => if h_dyn_cb h then check_column_values_against_limit cvs l || h_dyn_continue h else true
       | None => true
       end).
 
@@ -769,6 +760,7 @@ Fixpoint goval_eqb (a b : goval) : bool :=
   | GBool x, GBool y => Bool.eqb x y
   | GFloat x, GFloat y => Z.eqb x y
   | GBytes x, GBytes y => String.eqb x y
+  | GNilBytes, GNilBytes => true
   | GPtr p x, GPtr q y => Nat.eqb p q && goval_eqb x y
   | GNilPtr t, GNilPtr u => gty_eqb t u
   | _, _ => false
@@ -822,7 +814,7 @@ Fixpoint field_value (ty : gty) (d : dval) : goval :=
   | TyStr n => match d with DStr s | DBytes s => GStr n s | _ => GStr n "" end
   | TyBool => match d with DBool b => GBool b | DInt z => GBool (negb (Z.eqb z 0)) | _ => GBool false end
   | TyFloat => match d with DFloat q => GFloat q | DInt z => GFloat (4 * z) | _ => GFloat 0 end
-  | TyBytes => match d with DBytes s | DStr s => GBytes s | _ => GBytes "" end
+  | TyBytes => match d with DBytes s | DStr s => GBytes s | _ => GNilBytes end
   end.
 
 (** coerce (sqlgen/reflect.go): nil pointers become nil, pointers are dereferenced once. *)
@@ -830,7 +822,8 @@ Definition coerce (v : goval) : goval :=
   match v with GNilPtr _ => GNil | GPtr _ v' => v' | _ => v end.
 
 (** internal.MakeHashable on one element: []byte becomes string. *)
-Definition hashable (v : goval) : goval := match v with GBytes s => GStr "" s | _ => v end.
+Definition hashable (v : goval) : goval :=
+  match v with GBytes s => GStr "" s | GNilBytes => GStr "" "" | _ => v end.
 
 (** The matcher: caller [f] receives a fetched row when, for every column of its filter, the coerced
     filter value and the coerced struct field are equal as Go interface values (map lookup on the tuple).
@@ -870,6 +863,7 @@ Definition batched_results_orig (t : table) (fs : list filter) (contents : list 
 (** ** Domain of the transparency theorem *)
 Definition base_ty (ty : gty) : gty := match ty with TyPtr t => t | _ => ty end.
 Definition is_ptr_ty (ty : gty) : bool := match ty with TyPtr _ => true | _ => false end.
+Definition is_bytes_ty (ty : gty) : bool := match ty with TyBytes => true | _ => false end.
 
 Definition kind_in_range (k : ikind) (z : Z) : bool :=
   let r (lo hi : Z) := (lo <=? z)%Z && (z <? hi)%Z in
@@ -886,16 +880,18 @@ Definition scalar_typed (bt : gty) (v : goval) : bool :=
   | TyStr n, GStr n' _ => String.eqb n n'
   | TyBool, GBool _ => true
   | TyFloat, GFloat _ => true
-  | TyBytes, GBytes _ => true
+  | TyBytes, GBytes s => negb (String.eqb s "")
   | _, _ => false
   end.
 
 (** The filter value has exactly the Go type of the column's struct field (or is a pointer to it, or nil
     for a pointer column).  Everything else is the recorded defect class [c10-batch-matcher-go-type]:
-    the matcher compares Go interface values, so int(10) never equals the int64 field holding 10. *)
+    the matcher compares Go interface values, so int(10) never equals the int64 field holding 10.
+    The class also holds the values on which MakeHashable conflates NULL and '': nil or empty []byte
+    filter values, and nil on a []byte column (a NULL []byte scans into a nil slice, hashed as ""). *)
 Definition exactly_typed (c : column) (fv : goval) : bool :=
   match fv with
-  | GNil | GNilPtr _ => negb (c_implicitnull c)
+  | GNil | GNilPtr _ => negb (c_implicitnull c) && negb (is_bytes_ty (base_ty (c_ty c)))
   | GPtr _ v => scalar_typed (base_ty (c_ty c)) v && negb (c_implicitnull c && is_zero v)
   | v => scalar_typed (base_ty (c_ty c)) v
   end.
@@ -913,7 +909,7 @@ Definition dval_is_zero (d : dval) : bool :=
     NULL for it). *)
 Definition representable (c : column) (d : dval) : bool :=
   match d with
-  | DNull => is_ptr_ty (c_ty c) || c_implicitnull c
+  | DNull => is_ptr_ty (c_ty c) || c_implicitnull c || is_bytes_ty (c_ty c)
   | _ => negb (c_implicitnull c && dval_is_zero d)
          && match base_ty (c_ty c), d with
             | TyInt k _, DInt z => kind_in_range k z
@@ -929,12 +925,40 @@ Definition row_representable (t : table) (r : drow) : bool :=
   forallb (fun c => representable c (cell r (c_name c))) (t_cols t).
 
 (** Column descriptors sqlgen accepts: implicitnull is refused on pointer fields, pointers are one level. *)
-Definition is_bytes_ty (ty : gty) : bool := match ty with TyBytes => true | _ => false end.
-(** ([]byte columns: a NULL scans into a nil slice, which this model does not have; they are taken to be
-    NOT NULL and without implicitnull.) *)
+(** (implicitnull on a []byte column is pointless -- a nil slice is NULL already -- and not modelled.) *)
 Definition column_ok (c : column) : bool :=
   negb (c_implicitnull c && (is_ptr_ty (c_ty c) || is_bytes_ty (c_ty c)))
   && negb (is_ptr_ty (base_ty (c_ty c))).
 Definition columns_ok (t : table) : bool := forallb column_ok (t_cols t).
 
 Definition filter_known (t : table) (f : filter) : bool := all_known (t_cols t) f.
+
+(** * Batches that mix several handles *)
+
+(** WithShardLimit / WithDynamicLimit copy the DB struct, so every handle derived from one DB shares its
+    batch function: concurrent callers on different handles (an unrestricted one and a restricted one, or
+    two shard limits) under one batching context end up in the same combined statement.  Each caller is
+    still checked against its own handle before it reaches the batch function. *)
+Definition run_batched_multi (t : table) (cs : list (handle * filter)) (arrival : list (list nat))
+  : list event * list outcome :=
+  (map (fun b => EStmt (batch_stmt t (map (nth_filter (map snd cs)) b))) arrival,
+   map (fun hf => caller_outcome (fst hf) t (snd hf)) cs).
+
+Definition unrestricted : handle := mk_handle None None false false.
+
+Definition nth_caller (cs : list (handle * filter)) (i : nat) : handle * filter := nth i cs (unrestricted, []).
+
+Definition arrival_consistent_multi (t : table) (cs : list (handle * filter)) (arrival : list (list nat)) : bool :=
+  let all := List.concat arrival in
+  let ok i := outcome_is_proceeds (caller_outcome (fst (nth_caller cs i)) t (snd (nth_caller cs i))) in
+  forallb (fun i => Nat.ltb i (List.length cs) && ok i && Nat.eqb (count_occ_nat all i) 1) all
+  && forallb (fun i => negb (ok i) || Nat.eqb (count_occ_nat all i) 1) (seq 0 (List.length cs))
+  && forallb (fun b => match b with [] => false | _ => true end) arrival.
+
+Definition batched_multi_wfb (t : table) (cs : list (handle * filter)) : bool :=
+  table_ok t && forallb (fun hf => forallb (filter_ptrs_okb (snd hf)) (handle_limits (fst hf))) cs.
+
+(** * Several operations inside one transaction of the caller *)
+Definition run_seq (h : handle) (t : table) (batching_on : bool) (ops : list op) : list event * list outcome :=
+  (List.concat (map (fun o => fst (run h t (mk_ctx true batching_on) o)) ops),
+   map (fun o => snd (run h t (mk_ctx true batching_on) o)) ops).
